@@ -528,9 +528,12 @@ pub fn mk_glyph_v1(name: &str, tok: &str) -> Glyph {
         g.codepoints = norad::Codepoints::new([*r.pick(&['A', '\u{e9}', '\u{1F600}'])]);
     }
     for _ in 0..r.below(3) {
-        let n = 2 + r.below(4);
-        let pts = (0..n)
-            .map(|_| ContourPoint::new(plain_num(&mut r), plain_num(&mut r), PointType::Line, r.chance(1, 4), None, None))
+        let pts = contour_types(&mut r)
+            .into_iter()
+            .map(|t| {
+                let smooth = r.chance(1, 4) && t != PointType::OffCurve;
+                ContourPoint::new(plain_num(&mut r), plain_num(&mut r), t, smooth, None, None)
+            })
             .collect();
         g.contours.push(Contour::new(pts, None));
     }
@@ -780,6 +783,7 @@ fn observe_tree_with(src: &Path, intended: Option<&Spec>, scratch: &Path, target
     let mut out = vec!["l1=ok".to_string()];
     out.extend(font_tokens(&d1));
     out.push(format!("pre={}", paths(&l1)));
+    out.push(format!("pt={}", point_stats(l1.layers.iter().flat_map(|l| l.iter()))));
     out.push("|".to_string());
     let dst = scratch.join("c04-out.ufo");
     prepare_target(&dst, target);
@@ -1434,7 +1438,7 @@ pub fn observe(toks: &[&str], scratch: &Path) -> String {
             }
             let mut s = Surf::new(seed);
             let xml = render_glif(&intended, f, &mut s, x);
-            observe_glif(&xml, Some(&intended))
+            format!("{} pt={}", observe_glif(&xml, Some(&intended)), point_stats(std::iter::once(&intended)))
         }
         "special" => {
             // hand-written trees for the recorded font-level findings
